@@ -90,6 +90,27 @@ Theorem dependency_respected : forall cfg fs obj v key o t,
 Proof. exact dependency_respected_lemma. Qed.
 Print Assumptions dependency_respected.
 
+(* Requests served one after the other by the same process are independent: whatever came
+   before (accepted, rejected for any reason) and whatever follows, request number |pre| gets
+   the result of unmarshalling its own document, *)
+Theorem requests_independent : forall pre r post,
+  nth_error (run_requests fixed (pre ++ r :: post)) (List.length pre) = Some (serve fixed r).
+Proof. exact requests_independent_lemma. Qed.
+Print Assumptions requests_independent.
+
+(* so every accepted request of a sequence meets its OWN constraints and holds the decoding of
+   its OWN document — nothing of an earlier request appears — and no request panics. *)
+Theorem sequence_each_sound_and_exact : forall rs i r v,
+  nth_error rs i = Some r ->
+  nth_error (run_requests fixed rs) i = Some (Ok v) ->
+  decode (rq_cfg r) (rq_type r) (rq_doc r) = Some v /\ meets (rq_cfg r) (rq_type r) (rq_doc r) = true.
+Proof. exact sequence_each_lemma. Qed.
+Print Assumptions sequence_each_sound_and_exact.
+
+Theorem sequence_total : forall rs i, nth_error (run_requests fixed rs) i <> Some Panic.
+Proof. exact sequence_no_panic_lemma. Qed.
+Print Assumptions sequence_total.
+
 (* ---------------------------------------------------------------- non-vacuity *)
 
 Definition jcfg : ucfg := mkCfg false false false.
@@ -151,3 +172,10 @@ Example ex_embedded_cases :
   /\ meets jcfg ex_embedded (Some (JObj [("q", JStr "s"); ("c", JNum "1")])) = false
   /\ fields_ok ex_embedded = true.
 Proof. vm_compute. repeat split. Qed.
+
+(* a rejected request carrying b, c and m followed by one that omits them: the second is decided
+   on its own document (c takes its default, nothing of the first request appears) *)
+Example ex_sequence :
+  run_requests fixed [mkReq jcfg ex_fs (ex_doc "100"); mkReq jcfg ex_fs (Some (JObj [("m", JObj [])]))] =
+  [Err ERange; Ok (VStruct [VInt 0; VInt 0; VPtr (VStr "x"); VMap []])].
+Proof. vm_compute. reflexivity. Qed.
